@@ -135,6 +135,7 @@ type VC struct {
 	patAlias   map[string]string
 	allocSeq   map[*ssa.Alloc]int
 	allocCount int
+	nameCount  map[string]int
 }
 
 type loopInfo struct {
@@ -157,7 +158,7 @@ func newVC(w *World, cs *Contracts, ms *ModSets, fn *ssa.Function, spec *FuncSpe
 		notes: map[string]bool{}, unsupp: map[string]bool{}, assumedUse: map[string]bool{},
 		callOrd: map[string]int{}, panicOrd: map[string]int{}, sumDefs: map[string]bool{},
 		closures: map[ssa.Value]*ssa.MakeClosure{}, edgeReach: map[[2]int]string{},
-		compType: map[string]types.Type{}, epochTop: map[int]string{}, siteHits: map[*SiteSpec]int{}, defined: map[string]bool{}, patAlias: map[string]string{}, allocSeq: map[*ssa.Alloc]int{}}
+		compType: map[string]types.Type{}, epochTop: map[int]string{}, siteHits: map[*SiteSpec]int{}, defined: map[string]bool{}, patAlias: map[string]string{}, allocSeq: map[*ssa.Alloc]int{}, nameCount: map[string]int{}}
 	vc.prelude()
 	return vc
 }
@@ -265,6 +266,11 @@ func (vc *VC) srcPos() string {
 func (vc *VC) oblige(st *State, name, kind, goal, text string, props []string) *Obligation {
 	if len(props) == 0 && vc.spec != nil {
 		props = vc.spec.Props
+	}
+	// obligation names are file names and identities: never let two obligations share one
+	vc.nameCount[name]++
+	if n := vc.nameCount[name]; n > 1 {
+		name = fmt.Sprintf("%s~%d", name, n)
 	}
 	o := &Obligation{Name: vc.key + ":" + name, Kind: kind, Func: vc.key, Pos: len(vc.cmds),
 		Goal: smtImp(st.reach, goal), Props: props, Text: text, Src: vc.srcPos()}
